@@ -53,6 +53,11 @@ func WriteTable(dir string, t *Table) (string, error) {
 					cells[i] = strconv.FormatBool(v.B)
 				case KStr:
 					cells[i] = v.S
+				case KFloat:
+					cells[i] = strconv.FormatFloat(v.F, 'f', -1, 64)
+					if !strings.Contains(cells[i], ".") {
+						cells[i] += ".0" // "0" / "-0" would be read as Int
+					}
 				}
 			}
 			if len(cells) == 1 && cells[0] == "" {
